@@ -117,6 +117,21 @@ PROPS = {
         "trusted_base": ["std::sync::RwLock provides mutual exclusion; Vec::sort_by_key is a stable sort"],
         "assumptions": ["rules are identified by a tag stored in Rule.description"],
     },
+    "C16": {
+        "num": 16,
+        "vo": ["Properties/C16.vo"],
+        "rule": "exhaustive 23x23 value-pair matrix (ints, floats incl. 0.0/-0.0/NaN/-NaN/inf/0.1, numeric-looking and keyword-looking strings, booleans, arrays incl. nested -0.0/NaN, null) for alpha "
+                "(index created before and after insert, dropped), beta (add a, lookup b) and memo (node constant a/b on fact sets a/b); random histories of 3..10 ops for alpha (insert/create/drop/filter on 2 fields), "
+                "beta (add/remove/lookup), memo (2..10 evaluations over look-alike fact sets) and the conclusion index (add enabled/disabled rules with 0..2 Set actions, remove, find with 9 operator spellings); "
+                "non-trivial = label not 'trivial'",
+        "level_text": "Proved: Debug-equal values are interchangeable for == (all shapes, NaN, signed zero, nested arrays); a memoised evaluation equals direct evaluation after any sequence of earlier evaluations. "
+                "Alpha filter = scan, beta lookup = live facts with that key, and conclusion-index completeness are the Coq-defined executable specifications in Index.ok evaluated on the real structures "
+                "after every op, plus model-vs-code comparison.",
+        "level_note": "Trusted: Coq kernel; models of alpha_memory_index.rs/memoization.rs after fixes c8e1e36/34a4ae3, of BetaMemoryIndex and ConclusionIndex; Debug rendering of FactValue injective except NaN; "
+                "DefaultHasher collision-free (model compares the hashed sequences); SpecFloat for IEEE equality; harness; extraction. alpha_index_eq_scan is not yet a theorem (monitor only). Axioms: none.",
+        "trusted_base": ["std DefaultHasher treated as injective on the hashed byte sequences", "Debug for f64 is injective on non-NaN values"],
+        "assumptions": ["floats cross the wire as 64-bit patterns", "conclusion-index goals have the form `field op literal` with the operator spellings of extract_field_from_goal"],
+    },
     "C13": {
         "num": 13,
         "vo": ["Properties/C13.vo"],
